@@ -728,10 +728,11 @@ package ro
 //@   on complete(ctx) : emits Complete(newCtx)
 
 //@ operator ToMapIWithContext
-//@   props C04
+//@   props C04 C17
+//@   note the accumulated map is the machine state: each value overwrites the entry of its key (last write wins)
 //@   ghost n int = 0
 //@   inv i == n
-//@   on next(ctx, value) : emits ; n' = n + 1
+//@   on next(ctx, value) : emits ; n' = n + 1 ; post mapput(output, mapper_0(ctx, value, n), mapper_1(ctx, value, n))
 //@   on complete(ctx) : emits Next(ctx, output), Complete(ctx)
 
 //@ operator Distinct
@@ -783,3 +784,42 @@ package ro
 //@   props C04 C03
 //@   track source.SubscribeWithContext
 //@   on subscribe(ctx, destination) : emits source.SubscribeWithContext(ctx, destination)
+
+//@ operator FromSlice
+//@   props C04 C09
+//@   on subscribe(ctx, destination) : emits loop.L0, Complete(ctx)
+
+//@ loop FromSlice$1#0
+//@   noexit
+//@   invariant 0 <= it && it <= len(ranged)
+//@   invariant ranged == collections
+//@   iteration emits loop.L1
+
+//@ loop FromSlice$1#1
+//@   noexit
+//@   invariant 0 <= it && it <= len(ranged)
+//@   iteration emits destination.NextWithContext(ctx, ranged[it])
+
+//@ operator Timestamp
+//@   props C04 C09
+//@   on next(ctx, value) : emits Next(ctx, fields(value, _))
+
+//@ operator TimeInterval
+//@   props C04 C09
+//@   on next(ctx, value) : emits Next(ctx, fields(value, _))
+
+//@ operator Average
+//@   props C04 C01
+//@   ghost n int = 0
+//@   inv count == n && n >= 0
+//@   on next(ctx, value) : emits ; n' = n + 1
+//@   on complete(ctx) when n == 0 : emits Next(ctx, _), Complete(ctx)
+//@   on complete(ctx) when n != 0 : emits Next(ctx, _), Complete(ctx)
+
+//@ func Iif$1
+//@   props C04
+//@   maypanic
+//@   track callfn.*
+//@   ensures [asks-once] !panics ==> count(callfn.predicate) == 1
+//@   ensures [then-branch] !panics && res(callfn.predicate) ==> result == source1
+//@   ensures [else-branch] !panics && !res(callfn.predicate) ==> result == source2
